@@ -1565,7 +1565,7 @@ def fault_signature(rc, err):
     return None
 
 
-def run_script(ctx, exe, ops, k=0, opindex=-1, timeout=60, leak=True, tag="s"):
+def run_script(ctx, exe, ops, k=0, opindex=-1, timeout=60, leak=True, tag="s", norepeat=False):
     """run one script in a fresh process and work directory; returns a Result"""
     wd = tempfile.mkdtemp(prefix="mh_", dir=ctx.tmp)
     try:
@@ -1580,6 +1580,8 @@ def run_script(ctx, exe, ops, k=0, opindex=-1, timeout=60, leak=True, tag="s"):
         cmd = [exe, sp, wd]
         if opindex >= 0:
             cmd += [str(k), str(opindex)]
+            if norepeat:
+                cmd += ["1"]
         rc, out, err = vplib.sh(cmd, timeout=timeout, env=env)
     finally:
         shutil.rmtree(wd, ignore_errors=True)
